@@ -508,6 +508,22 @@ fn cancel_scenario(ty: Ty, peers: usize, shape: u8, how: u8, policy: u8) -> Verd
                 let _ = world::until_idle(sock.recv()).await;
             }
         }
+        if ty == Ty::Dealer {
+            // peer 0, whose connection merely did not accept data for a while, sends two messages of its own: an
+            // abandoned send is not a disconnect, its read side must still be served
+            conns2[0].send(&rc::encode_message(&[b"from-P0-1".to_vec()]));
+            conns2[0].send(&rc::encode_message(&[b"from-P0-2".to_vec(), vec![]]));
+            let mut inbound = Vec::new();
+            for _ in 0..2 {
+                if let Some(Ok(m)) = world::until_idle(sock.recv()).await {
+                    inbound.push(frames_of(&m));
+                }
+            }
+            if inbound != vec![vec![b"from-P0-1".to_vec()], vec![b"from-P0-2".to_vec(), vec![]]] {
+                viol2.borrow_mut().push(("after-abandoned-send/messages-of-the-peer-no-longer-received".into(), format!("afterwards peer 0 sent two messages of its own; recv gave {:?}", inbound.iter().map(|m| rc::show_frames(m)).collect::<Vec<_>>())));
+                return;
+            }
+        }
         world::set_cond("done");
         world::wait_cond("never").await;
         drop(sock);
